@@ -1191,3 +1191,374 @@ Lemma guarded_holds w t0 h :
 Proof.
   unfold guard, first_trigger, spec_cl, run. rewrite <- (view_init t0). apply guarded_from. apply LInv_init.
 Qed.
+
+Lemma pending_holds w t0 h : guard w t0 (run w t0 h) -> spec_cl cl_pending w t0 (run w t0 h).
+Proof. intros G. exact (proj1 (guarded_holds w t0 h G)). Qed.
+Lemma ends_holds w t0 h : guard w t0 (run w t0 h) -> spec_cl cl_ends w t0 (run w t0 h).
+Proof. intros G. exact (proj2 (guarded_holds w t0 h G)). Qed.
+
+(* ================================================================ the boolean monitor IS the stated monitor *)
+Lemma returnable_b_iff know nw timed s cands t :
+  returnable_b know nw timed s cands t = true <-> returnable know nw timed s cands t.
+Proof.
+  unfold returnable_b, returnable. rewrite existsb_exists. split.
+  - intros [i [Hi H]]. destruct (know s i) as [[nooa t']|] eqn:K; [|discriminate].
+    apply andb_true_iff in H as [H1 H2]. apply Nat.eqb_eq in H1. subst t'.
+    exists i, nooa. split; [exact Hi|]. split; [exact K|]. intros ->. cbn in H2. apply Z.leb_le. exact H2.
+  - intros (i & nooa & Hi & K & H). exists i. split; [exact Hi|]. rewrite K, Nat.eqb_refl. cbn.
+    destruct timed; cbn; [apply Z.leb_le, H; reflexivity|reflexivity].
+Qed.
+
+Lemma logged_b_iff know nw timed s cands :
+  existsb (fun i => match know s i with
+                    | Some (nooa, _) => negb timed || (nw <=? nooa)
+                    | None => false
+                    end) cands = true
+  <-> exists t, returnable know nw timed s cands t.
+Proof.
+  rewrite existsb_exists. unfold returnable. split.
+  - intros [i [Hi H]]. destruct (know s i) as [[nooa t]|] eqn:K; [|discriminate].
+    exists t, i, nooa. split; [exact Hi|]. split; [exact K|]. intros ->. cbn in H. apply Z.leb_le. exact H.
+  - intros (t & i & nooa & Hi & K & H). exists i. split; [exact Hi|]. rewrite K.
+    destruct timed; cbn; [apply Z.leb_le, H; reflexivity|reflexivity].
+Qed.
+
+Lemma cl_cache_b_iff w g vb o ou va timed : cl_cache_b g vb o ou va timed = true <-> cl_cache timed w g vb o ou va.
+Proof.
+  unfold cl_cache_b, cl_cache. rewrite andb_true_iff, forallb_forall.
+  assert (L : (forall s, In s (v_logged va) ->
+                 existsb (fun i => match know_after g o ou va s i with
+                                   | Some (nooa, _) => negb timed || (now_after g o <=? nooa)
+                                   | None => false end) (issuers_of va s) = true)
+              <-> (forall s, In s (v_logged va) ->
+                     exists t, returnable (know_after g o ou va) (now_after g o) timed s (issuers_of va s) t)).
+  { split; intros H s Hs; apply logged_b_iff, H, Hs. }
+  rewrite L. clear L.
+  assert (F : match o, ou with
+              | GetInfoFrom s i chk, OInfo (Some t) => returnable_b (g_know g) (g_now g) (timed && chk) s [i] t
+              | GetIdentity s ents chk, OIdentity toks _ =>
+                  forallb (returnable_b (g_know g) (g_now g) (timed && chk) s (cands_of vb s ents)) toks
+              | _, _ => true
+              end = true
+              <-> match o, ou with
+                  | GetInfoFrom s i chk, OInfo (Some t) => returnable (g_know g) (g_now g) (timed && chk) s [i] t
+                  | GetIdentity s ents chk, OIdentity toks _ =>
+                      forall t, In t toks -> returnable (g_know g) (g_now g) (timed && chk) s (cands_of vb s ents) t
+                  | _, _ => True
+                  end).
+  { destruct o; try (split; [intros _; exact I|reflexivity]).
+    - destruct ou; try (split; [intros _; exact I|reflexivity]).
+      rewrite forallb_forall. split; intros H t Ht; apply returnable_b_iff, H, Ht.
+    - destruct ou; try (split; [intros _; exact I|reflexivity]).
+      destruct t as [t|]; [apply returnable_b_iff|split; [intros _; exact I|reflexivity]]. }
+  rewrite F. reflexivity.
+Qed.
+
+Lemma optz_eqb_eq a b : optz_eqb a b = true <-> a = b.
+Proof.
+  destruct a as [x|], b as [y|]; cbn; try (split; [discriminate|congruence]); [|tauto].
+  rewrite Z.eqb_eq. split; congruence.
+Qed.
+
+Lemma subjects_eqb_eq a : forall b, subjects_eqb a b = true <-> a = b.
+Proof.
+  induction a as [|[s l] a IH]; destruct b as [|[s' l'] b]; cbn; try (split; [discriminate|congruence]); [tauto|].
+  rewrite !andb_true_iff, Nat.eqb_eq, list_eqb_eq, IH. split; [intros [[-> ->] ->]; reflexivity|intros H; injection H; auto].
+Qed.
+
+Lemma pview_eqb_eq a b : pview_eqb a b = true <-> a = b.
+Proof.
+  destruct a, b. unfold pview_eqb. cbn. rewrite !andb_true_iff, !Nat.eqb_eq, list_eqb_eq, optz_eqb_eq.
+  split; [intros [[[-> ->] ->] ->]; reflexivity|intros H; injection H; auto].
+Qed.
+
+Lemma pending_eqb_eq a : forall b, pending_eqb a b = true <-> a = b.
+Proof.
+  induction a as [|[r p] a IH]; destruct b as [|[r' p'] b]; cbn; try (split; [discriminate|congruence]); [tauto|].
+  rewrite !andb_true_iff, Nat.eqb_eq, pview_eqb_eq, IH. split; [intros [[-> ->] ->]; reflexivity|intros H; injection H; auto].
+Qed.
+
+Lemma view_eqb_eq a b : view_eqb a b = true <-> a = b.
+Proof.
+  destruct a, b. unfold view_eqb. cbn. rewrite !andb_true_iff, subjects_eqb_eq, list_eqb_eq, pending_eqb_eq.
+  split; [intros [[-> ->] ->]; reflexivity|intros H; injection H; auto].
+Qed.
+
+Lemma cl_accept_b_iff w g vb o ou va : cl_accept_b vb o ou va = true <-> cl_accept w g vb o ou va.
+Proof.
+  unfold cl_accept_b, cl_accept. destruct o; try (split; [intros _; exact I|reflexivity]).
+  destruct k; cbn [rkind_good orb].
+  - split; [intros _ H; congruence|reflexivity].
+  - rewrite andb_true_iff, view_eqb_eq, negb_true_iff. split.
+    + intros [A B] _. split; [intros ->; discriminate|exact B].
+    + intros H. destruct (H ltac:(discriminate)) as [A B]. split; [destruct ou; try reflexivity; congruence|exact B].
+  - rewrite andb_true_iff, view_eqb_eq, negb_true_iff. split.
+    + intros [A B] _. split; [intros ->; discriminate|exact B].
+    + intros H. destruct (H ltac:(discriminate)) as [A B]. split; [destruct ou; try reflexivity; congruence|exact B].
+Qed.
+
+Lemma cl_after_b_iff w g vb o ou va : cl_after_b vb o ou va = true <-> cl_after w g vb o ou va.
+Proof.
+  unfold cl_after_b, cl_after. destruct (completed vb o ou) as [s|].
+  - rewrite negb_true_iff. split; [intros H s' E; injection E as <-; exact H|intros H; apply H; reflexivity].
+  - split; [intros _ s E; discriminate|reflexivity].
+Qed.
+
+Lemma osubj_neqb_iff s e : osubj_neqb s e = true <-> Some s <> e.
+Proof.
+  unfold osubj_neqb. destruct e as [x|]; [|split; [discriminate|reflexivity]].
+  rewrite negb_true_iff, Nat.eqb_neq. split; [intros H E; injection E as ->; apply H; reflexivity|intros H ->; apply H; reflexivity].
+Qed.
+
+Lemma present_In v s : present v s = true <-> In s (map fst (v_subjects v)).
+Proof. unfold present. apply mem_In. Qed.
+
+Lemma keeps_b_iff vb va e : keeps_b vb va e = true <-> keeps vb va e.
+Proof.
+  unfold keeps_b, keeps. rewrite forallb_forall. split.
+  - intros H s P N. apply present_In in P. specialize (H s P). apply orb_true_iff in H as [H|H]; [|exact H].
+    apply negb_true_iff in H. apply osubj_neqb_iff in N. congruence.
+  - intros H s P. destruct (osubj_neqb s e) eqn:E; [|reflexivity]. cbn.
+    apply H; [apply present_In; exact P|apply osubj_neqb_iff; exact E].
+Qed.
+
+Lemma no_new_b_iff vb va e : no_new_b vb va e = true <-> no_new vb va e.
+Proof.
+  unfold no_new_b, no_new. rewrite forallb_forall. split.
+  - intros H s P N. apply present_In in P. specialize (H s P). apply orb_true_iff in H as [H|H]; [|exact H].
+    apply negb_true_iff in H. apply osubj_neqb_iff in N. congruence.
+  - intros H s P. destruct (osubj_neqb s e) eqn:E; [|reflexivity]. cbn.
+    apply H; [apply present_In; exact P|apply osubj_neqb_iff; exact E].
+Qed.
+
+Lemma is_success_iff ou : is_success ou = true <-> ou = OStatus LSuccess.
+Proof. destruct ou; cbn; try (split; [discriminate|congruence]). destruct s; split; congruence. Qed.
+
+Lemma is_nil_iff {A} (l : list A) : is_nil l = true <-> l = [].
+Proof. destruct l; cbn; split; congruence. Qed.
+
+Lemma cl_request_b_iff w g vb o ou va : cl_request_b vb o ou va = true <-> cl_request w g vb o ou va.
+Proof.
+  unfold cl_request_b, cl_request. destruct o; try (split; [intros _; exact I|reflexivity]).
+  rewrite !andb_true_iff, keeps_b_iff, no_new_b_iff, pending_eqb_eq. split.
+  - intros [[[[A B] C] D] E]. repeat split; try assumption.
+    + intros ->. rewrite Nat.eqb_refl in C. cbn in C. apply negb_true_iff; exact C.
+    + destruct (is_success ou) eqn:S; [|apply is_success_iff in H; congruence]. cbn in D.
+      apply andb_true_iff in D as [D _]. apply Nat.eqb_eq; exact D.
+    + destruct (is_success ou) eqn:S; [|apply is_success_iff in H; congruence]. cbn in D.
+      apply andb_true_iff in D as [_ D]. exact D.
+  - intros (A & B & C & D & E). repeat split; try assumption.
+    + destruct (named =? cur)%nat eqn:N; [|reflexivity]. cbn. apply Nat.eqb_eq in N. rewrite (C N). reflexivity.
+    + destruct (is_success ou) eqn:S; [|reflexivity]. cbn. apply is_success_iff in S. destruct (D S) as [-> P].
+      rewrite Nat.eqb_refl, P. reflexivity.
+Qed.
+
+Lemma cl_pending_b_iff w g vb o ou va : cl_pending_b g vb o va = true <-> cl_pending w g vb o ou va.
+Proof.
+  unfold cl_pending_b, cl_pending. destruct o; try (split; [intros _; exact I|reflexivity]).
+  destruct (answering g r i success) as [x|].
+  - split; [intros _ H; discriminate|reflexivity].
+  - rewrite andb_true_iff, subjects_eqb_eq, pending_eqb_eq. split; [intros H _; exact H|intros H; apply H; reflexivity].
+Qed.
+
+Lemma is_sent_neg ou : negb (is_sent ou) = true <-> is_sent ou <> true.
+Proof. destruct (is_sent ou); cbn; split; congruence. Qed.
+
+Lemma cl_ends_b_iff w g vb o ou va : cl_ends_b w g vb o ou va = true <-> cl_ends w g vb o ou va.
+Proof.
+  unfold cl_ends_b, cl_ends. destruct o.
+  1-7: rewrite !andb_true_iff, keeps_b_iff, no_new_b_iff, pending_eqb_eq; tauto.
+  - (* StartLogout *) cbv zeta. rewrite !andb_true_iff, keeps_b_iff, no_new_b_iff.
+    destruct (present vb s) eqn:P; cbn [negb orb].
+    + destruct (deadline_passed (g_now g) expire).
+      * rewrite negb_true_iff. split; [intros [[A B] C]; repeat split; auto|intros (A & B & C); repeat split; auto].
+      * rewrite andb_true_iff, !orb_true_iff, !negb_true_iff, is_nil_iff. split.
+        -- intros [[A B] [C D]]. split; [exact A|]. split; [exact B|]. intros _. split.
+           ++ intros W S. destruct C as [[C|C]|C]; [rewrite W in C; discriminate|rewrite S in C; discriminate|exact C].
+           ++ intros X. destruct D as [D|D]; [congruence|exact D].
+        -- intros (A & B & C). destruct (C eq_refl) as [C1 C2]. split; [split; assumption|]. split.
+           ++ destruct (is_nil (wait_start w ans (issuers_of vb s))) eqn:N; [|left; left; reflexivity].
+              destruct (is_sent ou) eqn:S; [|left; right; reflexivity]. right. apply C1; [apply is_nil_iff; exact N|reflexivity].
+           ++ destruct (present va s) eqn:Q; [left; reflexivity|right; apply C2; reflexivity].
+    + split; [intros [[A B] _]; repeat split; auto; intros X; discriminate|intros (A & B & _); repeat split; auto].
+  - (* LogoutResponse *) destruct (answering g r i success) as [[n T]|]; [|split; [intros _; exact I|reflexivity]].
+    cbv zeta. rewrite !andb_true_iff, keeps_b_iff, no_new_b_iff.
+    destruct (deadline_passed (g_now g) (t_deadline T)).
+    + rewrite negb_true_iff. tauto.
+    + rewrite !andb_true_iff, !orb_true_iff, !negb_true_iff, !is_nil_iff. split.
+      * intros [[A B] [[C D] E]]. split; [exact A|]. split; [exact B|]. split; [|split].
+        -- intros W. destruct C as [C|C]; [rewrite W in C; discriminate|exact C].
+        -- intros W S. destruct D as [[D|D]|D]; [rewrite W in D; discriminate|rewrite S in D; discriminate|exact D].
+        -- intros X. destruct E as [E|E]; [congruence|exact E].
+      * intros (A & B & C & D & E). split; [split; assumption|]. split; [split|].
+        -- destruct (is_nil (wait_minus i (t_wait T))) eqn:N; [|left; reflexivity]. right. apply C, is_nil_iff; exact N.
+        -- destruct (is_nil (wait_answer w ans i (t_wait T))) eqn:N; [|left; left; reflexivity].
+           destruct (is_sent ou) eqn:S; [|left; right; reflexivity]. right. apply D; [apply is_nil_iff; exact N|reflexivity].
+        -- destruct (present va (t_subj T)) eqn:Q; [left; reflexivity|right; apply E; reflexivity].
+  - split; [intros _; exact I|reflexivity].
+  - rewrite !andb_true_iff, keeps_b_iff, no_new_b_iff, pending_eqb_eq; tauto.
+Qed.
+
+Lemma step_ok_b_iff w g vb o ou va : step_ok_b w g vb o ou va = true <-> step_ok w g vb o ou va.
+Proof.
+  unfold step_ok_b, failing_clause, step_ok, cl_iso, cl_exp.
+  rewrite <- (cl_cache_b_iff w g vb o ou va false), <- (cl_cache_b_iff w g vb o ou va true),
+    <- (cl_accept_b_iff w g), <- (cl_after_b_iff w g), <- (cl_request_b_iff w g), <- (cl_pending_b_iff w g vb o ou va),
+    <- cl_ends_b_iff.
+  destruct (cl_cache_b g vb o ou va false); cbn [negb]; [|split; [discriminate|intros [X _]; discriminate]].
+  destruct (cl_cache_b g vb o ou va true); cbn [negb]; [|split; [discriminate|intros (_ & X & _); discriminate]].
+  destruct (cl_accept_b vb o ou va); cbn [negb]; [|split; [discriminate|intros (_ & _ & X & _); discriminate]].
+  destruct (cl_after_b vb o ou va); cbn [negb]; [|split; [discriminate|intros (_ & _ & _ & X & _); discriminate]].
+  destruct (cl_request_b vb o ou va); cbn [negb]; [|split; [discriminate|intros (_ & _ & _ & _ & X & _); discriminate]].
+  destruct (cl_pending_b g vb o va); cbn [negb]; [|split; [discriminate|intros (_ & _ & _ & _ & _ & X & _); discriminate]].
+  destruct (cl_ends_b w g vb o ou va); cbn [negb]; [|split; [discriminate|intros (_ & _ & _ & _ & _ & _ & X); discriminate]].
+  split; [intros _; repeat split|reflexivity].
+Qed.
+
+Lemma spec_from_b_iff w : forall tr g vb, spec_from_b w g vb tr = true <-> spec_from step_ok w g vb tr.
+Proof.
+  induction tr as [|[[o ou] va] r IH]; intros g vb; cbn; [split; [intros _; exact I|reflexivity]|].
+  rewrite andb_true_iff, step_ok_b_iff, IH. reflexivity.
+Qed.
+
+(* the boolean monitor evaluated on the implementation's recorded trace is the stated property *)
+Lemma spec_b_iff w t0 tr : spec_b w t0 tr = true <-> spec w t0 tr.
+Proof. apply spec_from_b_iff. Qed.
+
+(* the property is the conjunction of its clauses *)
+Lemma spec_from_split w : forall tr g vb,
+  spec_from step_ok w g vb tr <->
+  spec_from cl_iso w g vb tr /\ spec_from cl_exp w g vb tr /\ spec_from cl_accept w g vb tr /\ spec_from cl_after w g vb tr
+  /\ spec_from cl_request w g vb tr /\ spec_from cl_pending w g vb tr /\ spec_from cl_ends w g vb tr.
+Proof.
+  induction tr as [|[[o ou] va] r IH]; intros g vb; cbn; [tauto|]. rewrite IH. unfold step_ok. tauto.
+Qed.
+
+Lemma spec_split w t0 tr :
+  spec w t0 tr <->
+  spec_cl cl_iso w t0 tr /\ spec_cl cl_exp w t0 tr /\ spec_cl cl_accept w t0 tr /\ spec_cl cl_after w t0 tr
+  /\ spec_cl cl_request w t0 tr /\ spec_cl cl_pending w t0 tr /\ spec_cl cl_ends w t0 tr.
+Proof. apply spec_from_split. Qed.
+
+(* main theorem: every history outside the known finding classes satisfies the whole property *)
+Lemma guarded_spec w t0 h : guard w t0 (run w t0 h) -> spec w t0 (run w t0 h).
+Proof.
+  intros G. apply spec_split. destruct (guarded_holds w t0 h G) as [P E].
+  repeat split; [apply isolation_holds|apply expiry_holds|apply accept_holds|apply after_holds|apply request_holds|exact P|exact E].
+Qed.
+
+(* ================================================================ up to the first trigger *)
+(* The sharper statement: on EVERY history, every step before the first step that falls into a known
+   finding class satisfies all clauses (Corr.cls excuses exactly the steps from that trigger on). *)
+Fixpoint spec_until_from (cl : clause) (w : world) (g : ghost) (vb : view) (tr : trace) : Prop :=
+  match tr with
+  | [] => True
+  | (o, ou, va) :: r =>
+      trigger w g vb o = 0%nat -> cl w g vb o ou va /\ spec_until_from cl w (ghost_step w g vb o ou va) va r
+  end.
+Definition spec_until (w : world) (t0 : Z) (tr : trace) : Prop := spec_until_from step_ok w (ghost0 t0) empty_view tr.
+
+Lemma until_from : forall h w st g,
+  KInv st g -> LInv w st g -> spec_until_from step_ok w g (view_of st) (run_from w st h).
+Proof.
+  induction h as [|o r IH]; intros w st g K L; cbn; [exact I|].
+  destruct (step w st o) as [st' ou] eqn:S. cbn. intros T0.
+  destruct (guarded_step _ _ _ _ _ _ L T0 S) as (A & B & C).
+  split.
+  - repeat split.
+    + exact (proj1 (cache_clause w st g o st' ou false K S)).
+    + exact (proj2 (cache_clause w st g o st' ou false K S)).
+    + exact (proj1 (cache_clause w st g o st' ou true K S)).
+    + exact (proj2 (cache_clause w st g o st' ou true K S)).
+    + eapply accept_clause; exact S.
+    + eapply after_clause; exact S.
+    + eapply request_clause; exact S.
+    + exact A.
+    + exact B.
+  - apply IH; [eapply KInv_step; eassumption|exact C].
+Qed.
+
+Lemma until_holds w t0 h : spec_until w t0 (run w t0 h).
+Proof. unfold spec_until, run. rewrite <- (view_init t0). apply until_from; [apply KInv_init|apply LInv_init]. Qed.
+
+Lemma until_guard w : forall tr g vb,
+  spec_until_from step_ok w g vb tr -> first_trigger_from w g vb tr = 0%nat -> spec_from step_ok w g vb tr.
+Proof.
+  induction tr as [|[[o ou] va] r IH]; intros g vb H T; cbn in *; [exact I|].
+  destruct (trigger w g vb o) eqn:E; [|discriminate]. destruct (H eq_refl) as [A B]. split; [exact A|apply IH; assumption].
+Qed.
+
+(* ================================================================ the known finding classes are real (faithful model) *)
+Local Close Scope Z_scope.
+Definition w_soap : world := {| w_pref := [SOAP; REDIRECT; POST]; w_slo := [[SOAP]] |}.
+Definition w_front : world := {| w_pref := [SOAP; REDIRECT; POST]; w_slo := [[REDIRECT]; [POST]] |}.
+
+(* class 1: the only IdP is asked over SOAP and answers Success; the session stays *)
+Definition h_soap : list op := [Login 0 0 2000 1; StartLogout 0 None [SA_ok]; GetIdentity 0 [] true].
+(* class 2: IdP 1 answers the request that was sent to IdP 0 *)
+Definition h_wrong_party : list op :=
+  [Login 0 0 2000 1; Login 0 1 2000 2; StartLogout 0 None []; LogoutResponse 0 1 true []].
+(* class 3: the answer to a request of an abandoned logout ends the subject's NEW session *)
+Definition h_stale : list op :=
+  [Login 0 0 2000 1; StartLogout 0 None []; LocalLogout 0; Login 0 0 2000 2; LogoutResponse 0 0 true [];
+   GetIdentity 0 [] true].
+
+Lemma refute w t0 h : spec_b w t0 (run w t0 h) = false -> ~ spec w t0 (run w t0 h).
+Proof. intros E H. apply spec_b_iff in H. congruence. Qed.
+
+Lemma soap_refuted : exists w t0 h, first_trigger w t0 (run w t0 h) = 1%nat /\ ~ spec w t0 (run w t0 h).
+Proof. exists w_soap, 1000%Z, h_soap. split; [vm_compute; reflexivity|apply refute; vm_compute; reflexivity]. Qed.
+
+Lemma wrong_party_refuted : exists w t0 h, first_trigger w t0 (run w t0 h) = 2%nat /\ ~ spec w t0 (run w t0 h).
+Proof. exists w_front, 1000%Z, h_wrong_party. split; [vm_compute; reflexivity|apply refute; vm_compute; reflexivity]. Qed.
+
+Lemma stale_refuted : exists w t0 h, first_trigger w t0 (run w t0 h) = 3%nat /\ ~ spec w t0 (run w t0 h).
+Proof. exists w_front, 1000%Z, h_stale. split; [vm_compute; reflexivity|apply refute; vm_compute; reflexivity]. Qed.
+
+(* what goes wrong, in the model's own outputs *)
+Example soap_session_survives :
+  map (fun x => snd (fst x)) (run w_soap 1000 h_soap) = [OUnit; OSent [SentSoap 0]; OIdentity [1] []].
+Proof. vm_compute. reflexivity. Qed.
+Example stale_answer_ends_new_session :
+  map (fun x => snd (fst x)) (run w_front 1000 h_stale)
+  = [OUnit; OSent [SentPending 0 REDIRECT 0]; OBool true; OUnit; ODone; OIdentity [] []].
+Proof. vm_compute. reflexivity. Qed.
+
+(* ================================================================ non-vacuity *)
+(* a complete front-channel logout of subject 0 at two IdPs (subject 1 keeps its session): the guard
+   holds, both answers are `answering`, the second one ends the session *)
+Definition h_flow : list op :=
+  [Login 0 0 2000 1; Login 0 1 2000 2; Login 1 0 2000 3; GetIdentity 0 [] true; GetInfoFrom 0 1 true;
+   StartLogout 0 (Some 1500%Z) []; LogoutResponse 0 0 true []; LogoutResponse 1 1 true [];
+   GetIdentity 0 [] true; GetIdentity 1 [] true; LogoutRequest 0 1 0 REDIRECT; LogoutRequest 1 1 0 REDIRECT;
+   GetIdentity 1 [] true].
+Example flow_guard : guard w_front 1000 (run w_front 1000 h_flow).
+Proof. vm_compute. reflexivity. Qed.
+Example flow_outputs :
+  map (fun x => snd (fst x)) (run w_front 1000 h_flow)
+  = [OUnit; OUnit; OUnit; OIdentity [1; 2] []; OInfo (Some 2);
+     OSent [SentPending 0 REDIRECT 0; SentPending 1 POST 1]; OSent [SentPending 1 POST 2]; ODone;
+     OIdentity [] []; OIdentity [3] []; OStatus LUnknownPrincipal; OStatus LSuccess; OIdentity [] []].
+Proof. vm_compute. reflexivity. Qed.
+Example flow_spec : spec w_front 1000 (run w_front 1000 h_flow).
+Proof. apply guarded_spec, flow_guard. Qed.
+
+(* the deadline passes while an answer is outstanding: the next answer ends the session at once *)
+Definition h_deadline : list op :=
+  [Login 0 0 5000 1; Login 0 1 5000 2; StartLogout 0 (Some 1500%Z) []; Tick 501; GetIdentity 0 [] true;
+   LogoutResponse 0 0 true []; GetIdentity 0 [] true; StartLogout 0 None []].
+Example deadline_guard : guard w_front 1000 (run w_front 1000 h_deadline).
+Proof. vm_compute. reflexivity. Qed.
+Example deadline_outputs :
+  map (fun x => snd (fst x)) (run w_front 1000 h_deadline)
+  = [OUnit; OUnit; OSent [SentPending 0 REDIRECT 0; SentPending 1 POST 1]; OUnit; OIdentity [1; 2] [];
+     OTimeout; OIdentity [] []; OExn KeyErr].
+Proof. vm_compute. reflexivity. Qed.
+
+(* expiry: the same information is returned at its not-on-or-after instant and not one second later *)
+Example expiry_outputs :
+  map (fun x => snd (fst x))
+      (run w_front 1000 [Login 0 0 1010 1; Tick 10; GetInfoFrom 0 0 true; Tick 1; GetInfoFrom 0 0 true;
+                         GetIdentity 0 [] true; GetInfoFrom 0 0 false])
+  = [OUnit; OUnit; OInfo (Some 1); OUnit; OExn TooOldErr; OIdentity [] [0]; OInfo (Some 1)].
+Proof. vm_compute. reflexivity. Qed.
